@@ -161,3 +161,62 @@ pub fn drive(a: &Args) -> i32 {
     eprintln!("c02 drive: {n} events");
     0
 }
+
+/// Spec -> impl: replay TLC-generated behaviours of Replay_Kademlia.tla on the real engine and compare
+/// the closest-node answers for every key after every step with the model's answers.
+pub fn replay(a: &Args) -> i32 {
+    let input = a.str("in", "/dev/stdin");
+    let text = match std::fs::read_to_string(&input) {
+        Ok(t) => t,
+        Err(e) => {
+            eprintln!("cannot read {input}: {e}");
+            return 2;
+        }
+    };
+    let mut rng = common::rng(22);
+    let rt = common::rt();
+    let mut behaviours = 0u64;
+    let mut steps = 0u64;
+    let mut compared = 0u64;
+    let mut mismatches: Vec<serde_json::Value> = Vec::new();
+    rt.block_on(async {
+        for line in text.lines() {
+            let Ok(b) = serde_json::from_str::<serde_json::Value>(line) else { continue };
+            let bits = b["bits"].as_u64().unwrap_or(4) as usize;
+            let selfid = b["self"].as_u64().unwrap_or(0);
+            let n = b["n"].as_u64().unwrap_or(3) as usize;
+            let e = Embed::new(bits, &mut rng, behaviours % 2 == 1);
+            let Ok(mut eng) = DhtCoreEngine::new(NodeId::from_bytes(e.embed(selfid))) else { return };
+            behaviours += 1;
+            for (si, st) in b["steps"].as_array().cloned().unwrap_or_default().iter().enumerate() {
+                steps += 1;
+                let x = st["x"].as_u64().unwrap_or(0);
+                match st["op"].as_str().unwrap_or("") {
+                    "add" => {
+                        let _ = eng.join_network(vec![info(&e, x, "verif-replay")]).await;
+                    }
+                    _ => {
+                        if si % 2 == 0 {
+                            let _ = eng.handle_node_failure(NodeId::from_bytes(e.embed(x))).await;
+                        } else {
+                            let _ = eng.evict_node(&NodeId::from_bytes(e.embed(x)), EvictionReason::Stale).await;
+                        }
+                    }
+                }
+                if let Some(ans) = st["answers"].as_object() {
+                    for (k, exp) in ans {
+                        let key: u64 = k.parse().unwrap_or(0);
+                        let got = eng.find_nodes(&DhtKey::from_bytes(e.embed(key)), n).await.map(|v| decode(&e, &v)).unwrap_or_default();
+                        let expv: Vec<i64> = exp.as_array().map(|v| v.iter().filter_map(|z| z.as_i64()).collect()).unwrap_or_default();
+                        compared += 1;
+                        if got != expv && mismatches.len() < 20 {
+                            mismatches.push(json!({"behaviour":behaviours,"step":si + 1,"op":st["op"],"x":x,"key":key,"expected":expv,"got":got,"self":selfid,"bits":bits}));
+                        }
+                    }
+                }
+            }
+        }
+    });
+    println!("{}", json!({"behaviours":behaviours,"steps":steps,"compared":compared,"mismatches":mismatches}));
+    0
+}
